@@ -59,9 +59,17 @@ func (m *VM) CaddyModule() caddy.ModuleInfo {
 	}
 }
 
+// kindMatches: a scenario role, or with a trailing '*' every role that starts so
+func kindMatches(pat, kind string) bool {
+	if n := len(pat); n > 0 && pat[n-1] == '*' {
+		return len(kind) >= n-1 && kind[:n-1] == pat[:n-1]
+	}
+	return pat == kind
+}
+
 func (m *VM) Match(cx *layer4.Connection) (bool, error) {
 	rec := recOf(cx)
-	if m.Kind != "" && (rec == nil || rec.Kind != m.Kind) {
+	if m.Kind != "" && (rec == nil || !kindMatches(m.Kind, rec.Kind)) {
 		return false, nil
 	}
 	vis := len(cx.MatchingBytes())
